@@ -145,8 +145,8 @@ Lemma endpoints_per_locality_coherent name ls : forall s ok,
   coherent s -> coherent (fst (endpoints_per_locality s name ls ok)).
 Proof.
   induction ls as [|l ls IH]; intros s ok Hs; cbn [endpoints_per_locality]; [exact Hs|].
-  pose proof (step_update_hosts_coherent s name (fun _ => dedup l) Hs) as H1.
-  destruct (step_update_hosts s name (fun _ => dedup l)) as [s' r]. apply IH. exact H1.
+  pose proof (step_update_hosts_coherent s name (fun _ => dedup (map ep_to_host l)) Hs) as H1.
+  destruct (step_update_hosts s name (fun _ => dedup (map ep_to_host l))) as [s' r]. apply IH. exact H1.
 Qed.
 
 Lemma remove_clusters_coherent names : forall s, coherent s ->
@@ -258,22 +258,66 @@ Proof.
   rewrite Hf. cbn [fst]. apply remove_fold_gone. now left.
 Qed.
 
-(* ------------------------------------------------------------------ endpoint assignment *)
-Lemma in_dedup a l : In a (dedup l) <-> In a l.
+(* ------------------------------------------------------------------ hosts with attributes *)
+Lemma find_host_filter_other a x l : h_addr x <> a ->
+  find_host a (filter (fun y => negb (String.eqb (h_addr y) (h_addr x))) l) = find_host a l.
 Proof.
-  induction l as [|x l IH]; cbn [dedup In]; [tauto|].
-  rewrite filter_In, IH. split.
-  - intros [H|[H _]]; auto.
-  - intros [H|H]; [now left|]. destruct (String.eqb_spec a x) as [->|Hne]; [now left|].
-    right. split; [exact H|]. destruct (String.eqb_spec a x); [contradiction|reflexivity].
+  intros Hne. induction l as [|y l IH]; cbn [filter find_host]; [reflexivity|].
+  destruct (String.eqb_spec (h_addr y) (h_addr x)) as [Heq|Hn]; cbn [negb].
+  - destruct (String.eqb_spec (h_addr y) a) as [Ha|_]; [congruence|exact IH].
+  - cbn [find_host]. destruct (String.eqb_spec (h_addr y) a); [reflexivity|exact IH].
 Qed.
 
-(* with one host update per assignment: the hosts are the union of the endpoints of all localities *)
+(* NewHostSet: for every address the FIRST host of the list is the one kept *)
+Lemma find_host_dedup a l : find_host a (dedup l) = find_host a l.
+Proof.
+  induction l as [|x l IH]; cbn [dedup find_host]; [reflexivity|].
+  destruct (String.eqb_spec (h_addr x) a) as [Heq|Hne]; [reflexivity|].
+  rewrite find_host_filter_other by exact Hne. exact IH.
+Qed.
+
+Lemma find_host_some a l h : find_host a l = Some h -> In h l /\ h_addr h = a.
+Proof.
+  induction l as [|x l IH]; cbn [find_host]; [discriminate|].
+  destruct (String.eqb_spec (h_addr x) a) as [Heq|Hne].
+  - intros H; inversion H; subst. split; [now left|reflexivity].
+  - intros H. destruct (IH H). split; [now right|assumption].
+Qed.
+
+Lemma find_host_in_addr a l : In a (map h_addr l) <-> exists h, find_host a l = Some h.
+Proof.
+  induction l as [|x l IH]; cbn [map In find_host].
+  - split; [intros []|intros [h H]; discriminate].
+  - destruct (String.eqb_spec (h_addr x) a) as [Heq|Hne].
+    + split; [intros _; eauto|intros _; now left].
+    + rewrite <- IH. split; [intros [H|H]; [contradiction|exact H]|intros H; now right].
+Qed.
+
+(* an append: for every address the live host is the first one carrying it in (appended batch ++ previous hosts):
+   a re-appended address takes the NEW attributes, inside one batch the first entry wins, other hosts are kept *)
+Theorem append_takes_new_attributes pl ops name hosts c0 :
+  let s0 := final pl ops in
+  let s := final pl (ops ++ [OAppendHosts name hosts]) in
+  mget name (st_clusters s0) = Some c0 ->
+  exists c, mget name (st_clusters s) = Some c /\ mget name (st_cfg_clusters s) = Some c /\ cl_lb c = cl_lb c0 /\
+            forall a, find_host a (cl_hosts c) = find_host a (hosts ++ cl_hosts c0).
+Proof.
+  cbn zeta. intros Hc0. unfold final in *. rewrite run_app. set (s0 := fst (run pl init_state ops)) in *.
+  pose proof (run_coherent pl ops init_state coherent_init) as [_ Hcoh]. fold s0 in Hcoh. unfold fresh_clusters in Hcoh.
+  cbn [run step fst]. unfold step_update_hosts. rewrite Hc0. cbn [fst set_clusters st_clusters st_cfg_clusters].
+  unfold set_hosts_cfg. rewrite <- Hcoh, Hc0. rewrite mget_mset_same. eexists. split; [reflexivity|]. split; [reflexivity|].
+  split; [reflexivity|]. intros a. cbn [cl_hosts]. apply find_host_dedup.
+Qed.
+
+(* ------------------------------------------------------------------ endpoint assignment *)
+(* with one host update per assignment: the host ADDRESSES are the union of the endpoints of all localities, and for an
+   address that occurs several times the first occurrence (in locality order) gives the attributes *)
 Theorem endpoints_union s name ls c :
   mget name (st_clusters s) = Some c ->
   let s' := fst (step_endpoints false s name ls) in
   exists c', mget name (st_clusters s') = Some c' /\ cl_lb c' = cl_lb c /\
-             forall a, In a (cl_hosts c') <-> exists l, In l ls /\ In a l.
+             (forall a, In a (map h_addr (cl_hosts c')) <-> exists l, In l ls /\ In a (map ep_addr l)) /\
+             (forall a, find_host a (cl_hosts c') = find_host a (map ep_to_host (List.concat ls))).
 Proof.
   intros Hc. cbn zeta. unfold step_endpoints.
   assert (forall hosts, exists c', mget name (st_clusters (fst (step_update_hosts s name (fun _ => hosts)))) = Some c' /\
@@ -281,18 +325,24 @@ Proof.
   { intros hosts. unfold step_update_hosts. rewrite Hc. cbn [fst set_clusters st_clusters]. rewrite mget_mset_same.
     eexists. repeat split. }
   destruct ls as [|l ls].
-  - destruct (Hstep []) as (c' & H1 & H2 & H3). exists c'. repeat split; auto.
-    + rewrite H3. intros [].
-    + intros (l & [] & _).
-  - destruct (Hstep (dedup (List.concat (l :: ls)))) as (c' & H1 & H2 & H3). exists c'. split; [exact H1|]. split; [exact H2|].
-    intros a. rewrite H3, in_dedup, in_concat. split; intros (x & Hx1 & Hx2); exists x; auto.
+  - destruct (Hstep []) as (c' & H1 & H2 & H3). exists c'. split; [exact H1|]. split; [exact H2|]. rewrite H3. split.
+    + intros a. cbn [map In]. split; [intros []|intros (l & [] & _)].
+    + reflexivity.
+  - destruct (Hstep (dedup (map ep_to_host (List.concat (l :: ls))))) as (c' & H1 & H2 & H3). exists c'.
+    split; [exact H1|]. split; [exact H2|]. rewrite H3. split.
+    + intros a. rewrite find_host_in_addr. setoid_rewrite find_host_dedup. rewrite <- find_host_in_addr.
+      rewrite map_map. cbn [ep_to_host h_addr].
+      rewrite <- (map_map ep_addr (fun x => x)), map_id, concat_map, in_concat. split.
+      * intros (x & Hx1 & Hx2). apply in_map_iff in Hx1 as (l0 & <- & Hl0). exists l0. auto.
+      * intros (l0 & Hl0 & Ha). exists (map ep_addr l0). split; [now apply in_map|exact Ha].
+    + intros a. apply find_host_dedup.
 Qed.
 
 (* with one host update per locality the last locality replaces the others (the behaviour before the repair) *)
 Theorem endpoints_union_fails_per_locality :
   let s := fst (step true init_state (OAddOrUpdateCluster "c" 1 [])) in
-  let s' := fst (step_endpoints true s "c" [["10.0.0.1:80"]; ["10.0.0.2:80"]]) in
-  option_map cl_hosts (mget "c" (st_clusters s')) = Some ["10.0.0.2:80"].
+  let s' := fst (step_endpoints true s "c" [[Build_endpoint "10.0.0.1:80" None]; [Build_endpoint "10.0.0.2:80" None]]) in
+  option_map (fun c => map h_addr (cl_hosts c)) (mget "c" (st_clusters s')) = Some ["10.0.0.2:80"].
 Proof. vm_compute. reflexivity. Qed.
 
 (* ------------------------------------------------------------------ lookups concurrent with updates *)
